@@ -42,6 +42,7 @@ struct Rec {
 }
 
 struct Table {
+    foreign: BTreeMap<usize, usize>, // arena blocks of the simulated other module: start -> size
     blocks: BTreeMap<usize, Rec>, // key: user pointer
     quarantine: Vec<usize>,
     violations: Vec<String>,
@@ -85,6 +86,7 @@ fn with_table<R>(f: impl FnOnce(&mut Table) -> R) -> R {
     };
     if guard.is_none() {
         *guard = Some(Table {
+            foreign: BTreeMap::new(),
             blocks: BTreeMap::new(),
             quarantine: Vec::new(),
             violations: Vec::new(),
@@ -146,6 +148,7 @@ unsafe fn tracked_alloc(layout: Layout, zeroed: bool) -> *mut u8 {
 }
 
 enum Lookup {
+    Foreign,
     Untracked,
     Live(Rec),
     Freed(Rec),
@@ -156,7 +159,13 @@ fn lookup(ptr: *mut u8) -> Lookup {
         return Lookup::Untracked;
     }
     with_table(|t| match t.blocks.get(&(ptr as usize)) {
-        None => Lookup::Untracked,
+        None => {
+            let p = ptr as usize;
+            match t.foreign.range(..=p).next_back() {
+                Some((k, sz)) if p < k + (*sz).max(1) => Lookup::Foreign,
+                _ => Lookup::Untracked,
+            }
+        }
         Some(r) if r.st == St::Live => Lookup::Live(*r),
         Some(r) => Lookup::Freed(*r),
     })
@@ -254,10 +263,14 @@ unsafe impl GlobalAlloc for SimAlloc {
             return System.dealloc(ptr, layout);
         }
         match lookup(ptr) {
-            Lookup::Untracked => {
-                // might be an interior/offset pointer of a tracked block: report if tracking
-                System.dealloc(ptr, layout)
+            Lookup::Foreign => {
+                let _g = InternalGuard::enter();
+                push_violation(format!(
+                    "cross-module-free: memory owned by the foreign module was passed to this module's allocator (dealloc size={} align={})",
+                    layout.size(), layout.align()
+                ));
             }
+            Lookup::Untracked => System.dealloc(ptr, layout),
             Lookup::Live(r) => {
                 let presented = if tracking() { Some(layout) } else { None };
                 tracked_free(ptr, r, presented, "dealloc");
@@ -277,6 +290,19 @@ unsafe impl GlobalAlloc for SimAlloc {
             return System.realloc(ptr, layout, new_size);
         }
         match lookup(ptr) {
+            Lookup::Foreign => {
+                let _g = InternalGuard::enter();
+                push_violation(format!(
+                    "cross-module-free: memory owned by the foreign module was passed to this module's allocator (realloc {} -> {})",
+                    layout.size(), new_size
+                ));
+                let new_l = Layout::from_size_align_unchecked(new_size, layout.align());
+                let n = tracked_alloc(new_l, false);
+                if !n.is_null() {
+                    std::ptr::copy_nonoverlapping(ptr, n, std::cmp::min(layout.size(), new_size));
+                }
+                n
+            }
             Lookup::Untracked => {
                 if tracking() {
                     // harness-allocated block grown inside the system under test: becomes tracked
@@ -366,6 +392,7 @@ pub fn run_begin(seed: u64) {
                 }
             }
             // blocks leaked by an earlier (failed) run stay where they are but are forgotten
+            t.foreign.clear();
             let stale: Vec<usize> = t.blocks.keys().copied().collect();
             for p in stale {
                 t.blocks.remove(&p);
@@ -484,4 +511,21 @@ pub fn counters() -> (u64, u64, u64) {
 
 pub fn fill_pattern() -> u8 {
     fill_byte()
+}
+
+/// Arena memory of the simulated foreign module: never belongs to this module's allocator.
+pub fn register_foreign(ptr: *const u8, size: usize) {
+    let _g = InternalGuard::enter();
+    with_table(|t| {
+        t.foreign.insert(ptr as usize, size);
+    });
+    NTRACKED.fetch_add(1, Ordering::Relaxed);
+}
+
+pub fn unregister_foreign(ptr: *const u8) {
+    let _g = InternalGuard::enter();
+    let removed = with_table(|t| t.foreign.remove(&(ptr as usize)).is_some());
+    if removed {
+        NTRACKED.fetch_sub(1, Ordering::Relaxed);
+    }
 }
